@@ -240,8 +240,8 @@ impl Scenario for C14 {
     }
     fn runs(&self, tier: Tier) -> u64 {
         match tier {
-            Tier::Quick => 12_000,
-            Tier::Thorough => 600_000,
+            Tier::Quick => 100_000,
+            Tier::Thorough => 6_000_000,
         }
     }
     fn describe(&self) -> &'static str {
